@@ -47,6 +47,8 @@ SCALARS = [
     P('unary_int', '-iv', INT), P('const_int', 'ci', INT), P('global_int', 'giv', INT),
     P('arith_const_int', 'ci + 1', INT), P('arith_const_ints', 'ci * 2 - ci', INT), P('neg_const_int', '-ci', INT),
     P('arith_cast_const', '(cb is int) + 1', INT),
+    P('pos_const_int', '+ci', INT), P('pos_cast_const', '+(cb is int)', INT), P('pos_lit', '+5', INT, shrink=True), P('pos_int', '+iv', INT), P('pos_byte', '+bv', INT, shrink=True),
+    P('const_plus_zero', 'ci + 0', INT), P('const_times_one', 'ci * 1', INT), P('paren_const', '(ci)', INT), P('neg_neg_const', '- -ci', INT), P('pos_neg_const', '+-ci', INT),
     P('byte_as_int', 'bv is int', INT), P('bool_as_int', 'fv is int', INT), P('len', 'ia.length', INT),
     P('elem_int', 'ia[1]', INT), P('call_int', 'mk_int()', INT),
     P('byte_var', 'bv', BYTE), P('char_lit', "'a'", BYTE), P('const_byte', 'cb', BYTE), P('int_as_byte', 'iv is byte', BYTE),
